@@ -84,6 +84,7 @@ def write_evidence(prop, profile, tier, seed, results, wall, violations, extra=N
             samples.append({"seed": r["seed"], "params": r.get("params"), "steps": r["steps"][:8],
                             "detail": (r.get("samples") or [])[:2]})
     runs = sum(1 for r in results if "stats" in r)
+    aborted_runs = sum(1 for r in results if r.get("aborted"))
     evaluations = profile.evaluations(stats, runs)
     cov = {
         "evaluations": int(evaluations),
@@ -92,6 +93,7 @@ def write_evidence(prop, profile, tier, seed, results, wall, violations, extra=N
         "rule": profile.rule,
         "samples": samples or [{"note": "no run completed"}],
         "runs": runs,
+        "aborted_runs": aborted_runs,
         "runs_per_hour": int(runs / wall * 3600) if wall > 0 else 0,
         "seeds": [r["seed"] for r in results[:8] if "seed" in r],
         "logical_steps": int(stats.get("calls", 0)),
@@ -168,6 +170,13 @@ def cmd_check(args):
         if herr:
             print("HARNESS-ERROR: " + str(herr[0]["harness_error"])[:2000])
             rc = 2
+        ab = [r for r in results if r.get("aborted")]
+        if ab:
+            print("WARNING: %d of %d runs aborted by an exception in the harness' own code (first: seed %s)\n%s"
+                  % (len(ab), len(results), ab[0].get("seed"), str(ab[0]["aborted"])[-1200:]))
+            if len(ab) > max(2, len(results) // 20):
+                print("HARNESS-ERROR: too many aborted runs")
+                rc = 2
         extra = profile.post_batch(pool, results, tier) if hasattr(profile, "post_batch") else None
         if sweep_info:
             extra = dict(extra or {}, **sweep_info)
